@@ -299,6 +299,18 @@ theorem step_inv (s : State) (op : Op) (hop : op.early = true) (h : Inv s) : Inv
         | exact h.frame (frame_emit _ _ h.cur)
         | exact h.frame (frame_newReloc_emit s _ _ h.cur)
 
+  | memAbs k a t =>
+    simp only [step]
+    split
+    · exact h
+    · unfold x86MemAbs
+      dsimp only
+      repeat' split
+      all_goals first
+        | exact h
+        | exact h.frame (frame_emit _ _ h.cur)
+        | exact h.frame (frame_newReloc_emit s _ _ h.cur)
+
 theorem inv_init (arch : Arch) (base : BitVec 64) : Inv (State.init arch base) := by
   refine ⟨by simp [State.init], ?_, ?_, by simp [State.init], ?_, ?_, ?_, ?_⟩
   all_goals simp [State.init, FixupsWF]
